@@ -231,6 +231,10 @@ def run_rc_shards(exe, prop, seed, cases, shards, max_size, extra_env, timeout, 
         env["VERIF_CASES"] = str(cases)
         env["VERIF_SHARD"] = str(i)
         env["VERIF_DEADLINE_S"] = str(max(30, int(timeout) - 90))
+        if os.environ.get("VERIF_TIER") == "thorough":
+            # long runs: ASan records the allocation stack of every block in a depot that only grows (rapidcheck's deep, varied call
+            # stacks make it grow by ~30 MB/s); two frames per allocation keep 16 shards within memory
+            env["ASAN_OPTIONS"] = env["ASAN_OPTIONS"] + ":malloc_context_size=2"
         env["VERIF_REPO"] = REPO
         env.pop("VERIF_REPLAY", None)
         lp = os.path.join(work, "log-%d.txt" % i)
